@@ -93,6 +93,15 @@ func Param(name string) int {
 	return v
 }
 
+// ParamOr is Param with a default for work items that do not set the parameter.
+func ParamOr(name string, def int) int {
+	Load()
+	if v, ok := R.Params[name]; ok {
+		return v
+	}
+	return def
+}
+
 func SParam(name string) string { Load(); return R.SParams[name] }
 
 func Known(key string) bool {
@@ -447,6 +456,11 @@ func FootprintBegin(objs ...any) {
 func FootprintEnd(allow string) int {
 	ss := snaps[len(snaps)-1]
 	snaps = snaps[:len(snaps)-1]
+	if strings.Contains(allow, "mode=race") {
+		// C20: natively only the race detector decides (a properly synchronised cache changes state
+		// without racing); the exact store log is the executor's business
+		return 0
+	}
 	onlyMode := strings.Contains(allow, "only=")
 	if strings.Contains(allow, "=") {
 		al := ""
